@@ -21,8 +21,8 @@ def contents_pool(rnd, scale):
     for i in range(n):
         s = 2 * rnd.randrange(0, 6) * scale
         ln = rnd.choice([0, 0, 2, 4, 6, 20]) * scale
-        if rnd.random() < 0.08:
-            ln = 86400000 - rnd.randrange(0, 3)
+        if rnd.random() < 0.12:
+            ln = rnd.choice([86400000 - rnd.randrange(0, 3), 86400000 - rnd.randrange(0, 3), rnd.randrange(36000000, 86400000), 86400000])
         evs.append((s, ln))
     return evs
 
@@ -36,7 +36,7 @@ def grid_cases():
     return [[]] + singles + pairs
 
 
-def windows_for(rnd, scale, exhaustive):
+def windows_for(rnd, scale, exhaustive, evs=()):
     if exhaustive:
         edges = [-5, 0, 1, 4, 7, 8, 13]
         for hs in (True, False):
@@ -51,6 +51,10 @@ def windows_for(rnd, scale, exhaustive):
             hs = rnd.random() < 0.8
             he = rnd.random() < 0.8
             s = rnd.randrange(-3, 14) * scale
+            if evs and rnd.random() < 0.35:
+                # an edge placed relative to the start or the end of a stored event (matters for long events)
+                es, el = rnd.choice(evs)
+                s = rnd.choice([es, es + el]) + rnd.choice([-3, -2, -1, 0, 1, 2, 3]) * scale
             e = s + rnd.choice([0, 0, 1, 2, 3, 8, 30]) * scale
             yield hs, s, he, e
 
@@ -81,7 +85,7 @@ def run_case(ds, kind, rnd, uniq, evs_spec, exhaustive, limits):
                 b.insert(e)
     stored = b.get(-1)
     tr = [{"op": "load", "evs": [{"id": e.id, "ts": tick(e.timestamp), "dur": durt(e.duration), "d": "d%d" % e.data["i"]} for e in stored]}]
-    for hs, ws_t, he, we_t in windows_for(rnd, scale, exhaustive):
+    for hs, ws_t, he, we_t in windows_for(rnd, scale, exhaustive, evs_spec):
         jit1, jit2 = rnd.randrange(0, 1000), rnd.randrange(0, 1000)
         ws = (base + ws_t * MS + jit1 * US).astimezone(cz.tz()) if hs else None
         we = (base + we_t * MS + jit2 * US).astimezone(cz.tz()) if he else None
